@@ -133,7 +133,8 @@ def generate(src):
             if u == '_LABEL_PARSERS': return self.ev(e.slice, st, lambda s2, m: k(s2, ('parser_of', m)), K)
             return super().ev_Subscript(e, st, k, K)
         def ev_Call(self, e, st, k, K):
-            if ast.unparse(e.func) == '_LABEL_PARSERS[label_type]' and len(e.args) == 1:
+            via_local = isinstance(e.func, ast.Name) and isinstance(st.env.get(e.func.id), tuple) and st.env[e.func.id][:1] == ('parser_of',)          # parser = _LABEL_PARSERS[...]; parser(value)
+            if (via_local or (isinstance(e.func, ast.Subscript) and ast.unparse(e.func.value) == '_LABEL_PARSERS')) and len(e.args) == 1:
                 def got(st2, vs):
                     member, arg = vs[0][1], to_val(vs[1])
                     if not isinstance(member, PyEnumMember): raise Unsupported("_LABEL_PARSERS indexed by a non-member")
